@@ -34,6 +34,8 @@ ALPHABET = list('aA1$#.*>+^()[]{}="\'/\\-') + [' ']          # the 23 characters
 assert len(ALPHABET) == 23
 RANDOM_EXTRA = ['\n', '\t', 'é', '٣', ':', '!', '@', '%', '|', ',', '0', 'l', 'x', '_', '²', ' ']
 HANG_S = 5.0
+NUM_FRAGS = ['$', '$$', '$$$', '@', '@-', '@^', '@^^', '^', '^^', '-', '3', '12', '0', '*', '*2', '*3', '*0', 'a', 'li', '.c', '#i', '>', '+',
+             '(', ')', '{', '}', '[t=', ']', '$#', '${1}', '${', 'lorem', 'lorem5', '-1', '-', '/', 'ul>li', '.i$@^', '{$@^^^}', '$@^^-2']
 
 SYNTAXES = ['html', 'xml', 'xsl', 'jsx', 'js', 'pug', 'slim', 'haml', 'vue', 'svelte', 'xhtml']
 TEXTS = [None, None, None, 'hello', 'two\nlines', '  ', '', ['x'], ['x', 'y', 'z'], ['', ' ', 'q'], [], 'a$#b',
@@ -90,6 +92,7 @@ VALID = [
     '{t}*2', '(a)', '((a))', '(a)(b)', 'a{b}{c}', 'a[b=c d]', 'a[b={c}]', 'a[{b}]', 'a["b"]', "a['b' c]", 'a[b.]', 'a[b. c.]',
     'ul>li{${foo}}', 'a{${lang}}', 'p{\\$#}', 'p{a\\{b}', 'a\\>b', 'div>p*2>{$# $}', 'label>input', 'label[for]>input[id]',
     'cc:ie', 'a:link', 'div*0', 'div*1', 'p*2>span*2', 'ul>li*2>a{$}', 'div..a', 'div##a', 'a[b=1/2]', '1/2', 'a1/2',
+    'a$@^^*2', 'ul*2>li.i$@^^^^*2', '$@^^^', 'a{$@^^^}*2', 'p[t=$$@^^-3]*2', '(a$@^^)*2', 'lorem5-1', 'lorem10-2*2',
     'div>ul>li*2^^p', 'a^b', 'a^^^^b', '+a', 'a+', 'a>', 'a^', 'a/', 'a*', 'a*3*2',
     'div#i["q"]', "p.c['q' x]", 'a#i[{e}]', 'div#i.c[title=t "q" x. !y]{txt}', 'p.c[a={b} c="d e"]',
     'ul#nav>li.item$*2>a[href=#]{$#}', 'label.c>input#i', 'label[for]>textarea[id]', 'div.b>.-e>._m', 'div.b_m>.b__e', 'xsl:variable[select=x]>p',
@@ -471,6 +474,10 @@ def gen(ctx):
     for i in range(n_mut):
         base = rng.choice(VALID) if rng.random() < 0.6 else rand_valid(rng, names)
         cs.add(mutate(rng, base, wide if rng.random() < 0.3 else ALPHABET), rng.choice(cfgs), 'mutation')
+    # (3b) fragment mixes around the numbering / repeater / field syntax (every `@`, `^`, `-`, digit position)
+    for i in range(3000 if quick else 30000):
+        s = ''.join(rng.choice(NUM_FRAGS) for _ in range(rng.randint(1, 7)))
+        cs.add(s, cfgs[i % 3] if rng.random() < 0.6 else rng.choice(cfgs), 'numbering-mix')
     # (4b) malformed user snippets: the parse error refers to the snippet text
     for tbl in BAD_USER_SNIPPETS:
         for a in list(tbl) + ['ul>' + k for k in tbl] + [k + '*2' for k in tbl] + ['x']:
